@@ -1,10 +1,26 @@
 import Tahoe.StorageClient.Lemmas
+import Tahoe.StorageClient.Upload
+import Tahoe.Props.C33
 /-!
 C32 — Servers are ordered consistently and upload permission is enforced.
 
 Statements are about `Tahoe.StorageClient.getServersForPsi` (model of
 `StorageFarmBroker.get_servers_for_psi`) and `updateGoal` (model of `Publish.update_goal`), tied to
 the code by `harness/props/c32.py`.
+-/
+/-!
+## Coverage of the statement
+
+| clause of C32 | proved for the model by |
+|---|---|
+| for a given storage index and set of connected servers every client computes the same order | `order_is_function_of_set` (any enumeration / insertion history of the same set, distinct sort keys), `preferred_is_a_set` (order and repetitions in `peers.preferred` are irrelevant) |
+| preferred servers first, then by the hash of storage index and server seed | `preferred_first` (both halves).  SHA-1 itself is not modelled: the digest is an input, computed by hashlib in the harness — correspondence only |
+| with grid-manager keys configured, uploads are only directed to servers that currently hold a valid certificate | `upload_only_permitted` (result = exactly the connected, permitted servers), `upload_filter_applies_to_preferred` (no exemption for preferred servers, seed C32-c), `upload_candidates_hold_valid_certificate_now` and `currently_valid_server_is_offered` (end to end over certificates, keys and the current time through the C33 verifier; the list is a function of the current time only — seeds C32-a, C33-c), `publish_goal_only_permitted`, `publish_new_shares_only_permitted` (mutable publish, seed C32-b) |
+| quantifier: random server sets, seeds, preferred lists, storage indexes, certificate sets and clock values | theorems hold for all lists / keys / times; the tie to the code is `harness/props/c32.py` (histories on long-lived brokers with a stepping clock) and, for `serversAt`, `harness/props/c33.py` (`offer` lines) |
+
+Not covered: connection management (`is_connected` is an input), `HTTPNativeStorageServer`, the
+immutable uploader's own use of the list (`Tahoe2ServerSelector`), equal sort keys (then the order
+follows the frozenset iteration order; the model reproduces it from that order, no theorem).
 -/
 namespace Tahoe.C32
 open Tahoe.StorageClient
@@ -128,5 +144,104 @@ theorem publish_goal_only_permitted (total : Nat) (goal : List (Nat × Nat)) (ba
 example : updateGoal 3 [(1, 0), (3, 1)] [3]
     [⟨1, true, true, 0⟩, ⟨2, true, false, 0⟩, ⟨3, true, true, 0⟩, ⟨4, true, true, 0⟩]
     = some [(1, 0), (4, 1), (1, 2)] := by decide
+
+/-- Being preferred is no exemption from the grid-manager filter (seed C32-c emitted preferred
+    servers without filtering them): a server whose `upload_permitted()` is false is not in the
+    `for_upload` list, whether or not `peers.preferred` names it. -/
+theorem upload_filter_applies_to_preferred (preferred : List Nat) (l : List Server) (s : Server)
+    (hnot : s.permitted = false) : s ∉ getServersForPsi preferred true l := by
+  intro h
+  have := ((upload_only_permitted preferred l).2.2 s).mp h
+  simp [hnot] at this
+
+/-- the preferred, connected, unpermitted server 9 is dropped; the permitted preferred 7 leads -/
+example : getServersForPsi [7, 9] true
+    [⟨5, true, true, 1⟩, ⟨9, true, false, 80⟩, ⟨7, true, true, 90⟩]
+    = [⟨7, true, true, 90⟩, ⟨5, true, true, 1⟩] := by decide
+
+/-- `peers.preferred` acts as a *set*: order and repetitions in the configured list do not matter. -/
+theorem preferred_is_a_set (p₁ p₂ : List Nat) (h : ∀ x, x ∈ p₁ ↔ x ∈ p₂) (forUpload : Bool)
+    (l : List Server) : getServersForPsi p₁ forUpload l = getServersForPsi p₂ forUpload l := by
+  unfold getServersForPsi
+  rw [serverLe_congr p₁ p₂ h]
+
+example : getServersForPsi [7, 9, 7] false [⟨5, true, true, 1⟩, ⟨9, true, true, 80⟩, ⟨7, true, true, 90⟩]
+    = getServersForPsi [9, 7] false [⟨5, true, true, 1⟩, ⟨9, true, true, 80⟩, ⟨7, true, true, 90⟩] :=
+  preferred_is_a_set _ _ (by intro x; simp; omega) _ _
+
+/-- `update_goal` never directs a *new* placement to a server that is bad or not permitted — also
+    when that server already holds shares of the file (seed C32-b skipped the check for those). -/
+theorem publish_new_shares_only_permitted (total : Nat) (goal : List (Nat × Nat)) (bad : List Nat)
+    (full : List Server) (g : List (Nat × Nat)) (h : updateGoal total goal bad full = some g)
+    (e : Nat × Nat) (he : e ∈ g) (hnew : e ∉ goal) :
+    ∃ s ∈ full, s.id = e.1 ∧ s.permitted = true ∧ s.id ∉ bad := by
+  rcases (publish_goal_only_permitted total goal bad full g h).1 e he with h1 | h1
+  · exact absurd h1.1 hnew
+  · exact h1
+
+/-- server 2 holds share 0 but is no longer permitted: the homeless shares 1, 2 go to 1 and 4 -/
+example : updateGoal 3 [(2, 0)] []
+    [⟨1, true, true, 0⟩, ⟨2, true, false, 0⟩, ⟨4, true, true, 0⟩] = some [(2, 0), (1, 1), (4, 2)] := by decide
+
+section
+open Tahoe.GridManager
+variable {PK Sig Msg : Type}
+
+/-- "When grid-manager keys are configured, uploads are only directed to servers that *currently*
+    hold a valid certificate" — end to end over certificates and time: every server in the
+    `for_upload` list computed at `now` is connected and some certificate of its announcement
+    verifies under a configured key, names this server, and expires strictly after `now`.  The list
+    is a function of the announcements, keys and `now` alone (no memory of earlier calls). -/
+theorem upload_candidates_hold_valid_certificate_now (verify : PK → Sig → Msg → Bool)
+    (parse : Msg → Parsed Nat) (keys : List PK) (hk : keys ≠ []) (preferred : List Nat) (now : Time)
+    (l : List (Announced Sig Msg)) (s : Server)
+    (hs : s ∈ serversAt verify parse keys preferred true now l) :
+    ∃ a ∈ l, a.id = s.id ∧ a.connected = true ∧
+      ∃ c ∈ a.certs, ∃ k ∈ keys, verify k c.signature c.certificate = true ∧
+        ∃ t, parse c.certificate = .dict (.time t) (.ascii a.id) ∧ expiresAfter t now = .ok true := by
+  unfold serversAt at hs
+  obtain ⟨hmem, hconn, hperm⟩ := ((upload_only_permitted preferred _).2.2 s).mp hs
+  obtain ⟨a, ha, rfl⟩ := List.mem_map.mp hmem
+  refine ⟨a, ha, rfl, hconn, ?_⟩
+  simp only [toServer, verdict] at hperm
+  cases hv : verifier verify parse keys a.certs a.id with
+  | error e => simp [hv] at hperm
+  | ok f =>
+    cases hf : f now with
+    | error e => simp [hv, hf] at hperm
+    | ok b =>
+      cases b with
+      | false => simp [hv, hf] at hperm
+      | true => exact Tahoe.C33.granted_only_if verify parse keys a.certs a.id hk f hv now hf
+
+/-- conversely nothing currently valid is dropped: under C33's assumption on what the grid manager
+    signs, a connected server with a certificate that verifies, names it and is unexpired at the
+    (timezone-aware) `now` is in the `for_upload` list. -/
+theorem currently_valid_server_is_offered (verify : PK → Sig → Msg → Bool)
+    (parse : Msg → Parsed Nat) (keys : List PK) (hk : keys ≠ []) (preferred : List Nat) (now : Int)
+    (l : List (Announced Sig Msg)) (a : Announced Sig Msg) (ha : a ∈ l) (hconn : a.connected = true)
+    (hwf : Tahoe.C33.SignedWellFormed verify parse keys a.certs)
+    (hvalid : ∃ c ∈ a.certs, ∃ k ∈ keys, verify k c.signature c.certificate = true ∧
+      ∃ e, parse c.certificate = .dict (.time (.aware e)) (.ascii a.id) ∧ now < e) :
+    toServer verify parse keys (.aware now) a ∈ serversAt verify parse keys preferred true (.aware now) l := by
+  unfold serversAt
+  refine ((upload_only_permitted preferred _).2.2 _).mpr ⟨List.mem_map.mpr ⟨a, ha, rfl⟩, hconn, ?_⟩
+  obtain ⟨f, hf, hall⟩ := Tahoe.C33.permitted_iff verify parse keys a.certs a.id hk hwf
+  have := (hall now).2.mpr hvalid
+  simp [toServer, verdict, hf, this]
+
+/-- two announced servers with a certificate each (key 1 configured), server 7 preferred: at time 99
+    both are offered, preferred first; at 100 server 7's certificate has expired and it is gone —
+    preferred or not; the download list is unaffected -/
+example :
+    let parse : Nat → Parsed Nat := fun m =>
+      if m = 0 then .dict (.time (.aware 100)) (.ascii 7) else .dict (.time (.aware 500)) (.ascii 8)
+    let l : List (Announced SymSig Nat) :=
+      [⟨8, true, [⟨1, .signed 1 1⟩], 10⟩, ⟨7, true, [⟨0, .signed 1 0⟩], 20⟩]
+    (serversAt symVerify parse [1] [7] true (.aware 99) l).map (·.id) = [7, 8] ∧
+    (serversAt symVerify parse [1] [7] true (.aware 100) l).map (·.id) = [8] ∧
+    (serversAt symVerify parse [1] [7] false (.aware 100) l).map (·.id) = [7, 8] := by decide
+
+end
 
 end Tahoe.C32
